@@ -1,14 +1,16 @@
 ---------------------------- MODULE MacroScope_MC ----------------------------
-(* (M) every program over an alphabet with <= MaxLen statements, sections nested <= MaxDepth (2), <= MaxSects (2)  *)
-(* SECTION statements, two base names: lookup as coded = declarative rule (InvAgrees), the whole table = innermost *)
-(* known definition for every name and section (InvTable), later passes alike, deviations named.                   *)
-(*   MacroScope_MC.cfg        quick: alphabet AQuick  (names AA + BB; all five modes for AA)        MaxLen 4       *)
-(*   MacroScope_MC5.cfg       thorough: alphabet AFull, MaxLen 5                                                   *)
-(*   MacroScope_MC_names.cfg  names AA + NOP / DB / INCLUDE (classes mach, pseudo, core), plain + glob, MaxLen 4   *)
-(*   MacroScope_MC_fixed.cfg  Fixed = all deviations: no deviation fires, InvAgrees unconditional                  *)
-(*   MacroScope_MC_dev*.cfg   a deviation switched on with the invariant that excludes it: TLC must refute         *)
-(* (G) MacroScope_Gen*.cfg: prints every program whose last statement is a probe or gets it rejected, with the outcome the manual *)
-(* promises (one pass / with a forward reference), the outcome of the code as it is, and the deviations fired.     *)
+(* (M) every program of the families of one run (cfg: Families, Family <- ...): alphabets below, <= maxlen          *)
+(* statements, sections nested <= MaxDepth (2), <= MaxSects (2) SECTION statements, two base names per family:       *)
+(* InvAll = lookup as coded = declarative rule (Agrees), the whole table = innermost known definition for every     *)
+(* name and section (TableIsInnermostKnown), later passes alike, deviations named.                                   *)
+(*   MacroScope_MC.cfg        quick:    free4 (AQuick, 4) gen (AGen, 3) nop db incl (ANames, 3)                      *)
+(*   MacroScope_MC5.cfg       thorough: free5 (AQuick, 5) full4 (AFull, 4) nop4 db4 incl4 (ANames, 4)                *)
+(*   MacroScope_MC_fixed.cfg  Fixed = all deviations: no deviation fires, agreement unconditional, no crash          *)
+(*   MacroScope_MC_dev_*.cfg  the code as it is with the invariant that excludes a deviation: TLC must refute        *)
+(* The deviations are also shown by witness programs (ASSUMEs below, evaluated in every run).                         *)
+(* (G) the same runs print (Dump) every program up to the family's printlen whose last statement is a probe or gets  *)
+(* it rejected, with the outcome the manual promises (one pass / with a forward reference), the outcome of the code *)
+(* as it is, and the deviations fired.                                                                               *)
 EXTENDS MacroScope, Json
 
 AllModes == {"plain", "pub", "pubpar", "glob", "globpar"}
@@ -31,21 +33,44 @@ ANames(x) == Sect \cup Defs({"AA", x}, {"plain", "glob"}) \cup DefIns({x}, {"AA"
 ANop == ANames("NOP")
 ADb == ANames("DB")
 AIncl == ANames("INCLUDE")
-\* replay alphabets (the generator): as AQuick / ANames plus IFDEF
+\* replay alphabet: AQuick plus IFDEF and the macro that defines a {GLOBAL} macro whose copy takes its own name
 AGen == AQuick \cup IfDefs({"AA"}) \cup DefIns({"S1_AA"}, {"AA"}, {"glob"})
 
+Fam(a, maxlen, printlen) == [alphabet |-> a, maxlen |-> maxlen, printlen |-> printlen]
+QuickFamily(f) == CASE f = "free4" -> Fam(AQuick, 4, 0) [] f = "gen" -> Fam(AGen, 3, 3) [] f = "nop" -> Fam(ANop, 3, 3)
+                    [] f = "db" -> Fam(ADb, 3, 3) [] OTHER -> Fam(AIncl, 3, 3)
+FullFamily(f) == CASE f = "free5" -> Fam(AQuick, 5, 0) [] f = "full4" -> Fam(AFull, 4, 4) [] f = "nop4" -> Fam(ANop, 4, 4)
+                   [] f = "db4" -> Fam(ADb, 4, 4) [] OTHER -> Fam(AIncl, 4, 4)
+
+\* witnesses: the deviations are in the code as it is (and gone with the repair)
+Sc == [k |-> "sect"]
+W_Uninit == <<Sc, [k |-> "def", n |-> "AA", mode |-> "glob"], [k |-> "call", n |-> "S1_AA", bang |-> FALSE]>>
+W_Replaces == <<[k |-> "def", n |-> "S1_AA", mode |-> "plain"], Sc, [k |-> "def", n |-> "AA", mode |-> "glob"]>>
+W_Crash == <<[k |-> "defin", o |-> "S1_AA", n |-> "AA", mode |-> "glob"], Sc, [k |-> "call", n |-> "S1_AA", bang |-> FALSE]>>
+W_Core == <<[k |-> "def", n |-> "INCLUDE", mode |-> "plain"], [k |-> "call", n |-> "INCLUDE", bang |-> FALSE]>>
+Fires(d, w) == d \in Runs(Closed(w)).m1.devs
+ASSUME Fires("GlobCopyUninit", W_Uninit) = ~Repaired("GlobCopyUninit")
+ASSUME Fires("GlobCopyReplaces", W_Replaces) = ~Repaired("GlobCopyReplaces")
+ASSUME Runs(Closed(W_Crash)).m1.crash = ~Repaired("GlobCopyReplaces")
+ASSUME Fires("CoreNotHidden", W_Core) = ~Repaired("CoreNotHidden")
+\* ... and what the manual promises for them
+ASSUME DOutcome(Runs(Closed(W_Uninit)).d1) = Outcome(FALSE, {}, <<Ent("body", 2, "")>>)
+ASSUME DOutcome(Runs(Closed(W_Replaces)).d1) = Outcome(FALSE, {"DoubleMacro"}, <<>>)
+ASSUME DOutcome(Runs(Closed(W_Core)).d1) = Outcome(FALSE, {}, <<Ent("body", 1, "")>>)
+
 \* refutation targets for the _dev configurations
-NoGlobCopyUninit == \A more \in BOOLEAN : "GlobCopyUninit" \notin Machine(P, more).devs
-NoGlobCopyReplaces == \A more \in BOOLEAN : "GlobCopyReplaces" \notin Machine(P, more).devs
-NoCrash == \A more \in BOOLEAN : ~Machine(P, more).crash
-NoCoreNotHidden == \A more \in BOOLEAN : "CoreNotHidden" \notin Machine(P, more).devs
+NoGlobCopyUninit == "GlobCopyUninit" \notin R.m2.devs
+NoGlobCopyReplaces == "GlobCopyReplaces" \notin R.m2.devs
+NoCrash == ~R.m2.crash
+NoCoreNotHidden == "CoreNotHidden" \notin R.m2.devs
 
 \* (G) programs worth assembling: the last statement is a probe, or the program is rejected
 IsProbe(st) == st.k \in {"call", "ifdef"}
-Rejected(p) == DOutcome(Decl(p, FALSE)).rej \/ MOutcome(Machine(p, FALSE)).rej
-Worth == /\ prog # <<>>
+Rejected(p) == DPass1(p).ek # {} \/ LET m == Pass1(p) IN m.errs > 0 \/ m.crash
+Worth == /\ prog # <<>> /\ Len(prog) <= Family(fam).printlen
          /\ ~Rejected(Closed(Front(prog)))                 \* a program rejected before its last statement says nothing new
          /\ (IsProbe(prog[Len(prog)]) \/ Rejected(P))
-Row(more) == LET m == Machine(P, more) IN [exp |-> DOutcome(Decl(P, more)), coded |-> MOutcome(m), devs |-> m.devs]
-Dump == Worth => PrintT(<<"MS", ToJson([prog |-> P, indef |-> Indef(P), one |-> Row(FALSE), two |-> Row(TRUE)])>>)
+Row(m, d) == [exp |-> DOutcome(d), coded |-> MOutcome(m), devs |-> m.devs]
+Dump == Worth => LET r == Runs(P) IN
+          PrintT(<<"MS", ToJson([prog |-> P, indef |-> Indef(P), one |-> Row(r.m1, r.d1), two |-> Row(r.m2, r.d2)])>>)
 =============================================================================
